@@ -1,131 +1,9 @@
-(* LoaderTables.v — finite facts about the regenerated tables (KeyTable,
-   CharTable, Rows, Modifiers), all by vm_compute, and their consequences in
-   quantified form. *)
-From TM Require Import Base Json RustOps Fancy Mapper Parser Convert Serde SpecTables ConvertSpec LoaderCheck.
-From TMGen Require Import KeyTable CharTable Rows Modifiers.
+(* LoaderTables.v — finite facts about the regenerated character table, rows
+   and modifier set (C13), by vm_compute, and their consequences in quantified
+   form. *)
+From TM Require Import Base Json RustOps Fancy Mapper Parser Convert SpecTables ConvertSpec StrLemmas.
+From TMGen Require Import CharTable Rows Modifiers.
 From Coq Require Import Lia.
-
-(* ---------- strings ---------- *)
-
-Lemma str_eqb_refl : forall s, str_eqb s s = true.
-Proof. induction s as [|c s IH]; cbn; [reflexivity|]. rewrite N.eqb_refl, IH. reflexivity. Qed.
-
-Lemma str_eqb_eq : forall a b, str_eqb a b = true <-> a = b.
-Proof.
-  induction a as [|x a IH]; destruct b as [|y b]; cbn; split; intro H; try reflexivity; try discriminate.
-  - apply andb_true_iff in H. destruct H as [H1 H2]. apply N.eqb_eq in H1. apply IH in H2. subst. reflexivity.
-  - inversion H; subst. rewrite N.eqb_refl. cbn. apply IH. reflexivity.
-Qed.
-
-Lemma str_eqb_sym : forall a b, str_eqb a b = str_eqb b a.
-Proof.
-  intros a b. destruct (str_eqb a b) eqn:E.
-  - apply str_eqb_eq in E. subst. symmetry. apply str_eqb_refl.
-  - destruct (str_eqb b a) eqn:E2; [|reflexivity]. apply str_eqb_eq in E2. subst.
-    rewrite str_eqb_refl in E. discriminate.
-Qed.
-
-Lemma keys_eqb_eq : forall a b, keys_eqb a b = true <-> a = b.
-Proof.
-  induction a as [|x a IH]; destruct b as [|y b]; cbn; split; intro H; try reflexivity; try discriminate.
-  - apply andb_true_iff in H. destruct H as [H1 H2]. apply N.eqb_eq in H1. apply IH in H2. subst. reflexivity.
-  - inversion H; subst. rewrite N.eqb_refl. cbn. apply IH. reflexivity.
-Qed.
-
-Lemma keys_eqb_refl : forall a, keys_eqb a a = true.
-Proof. intro a. apply keys_eqb_eq. reflexivity. Qed.
-
-(* ---------- key names (C15) ---------- *)
-
-Definition ident_of (e : string * N * string) : string := fst (fst e).
-Definition code_of (e : string * N * string) : N := snd (fst e).
-Definition sname_of (e : string * N * string) : string := snd e.
-
-(* a string of ASCII digits only (and not empty) *)
-Definition is_digit_string (s : str) : bool :=
-  match s with [] => false | _ => forallb (fun c => (48 <=? c)%N && (c <=? 57)%N) s end.
-
-Definition res_key_is (r : res key) (k : key) : bool :=
-  match r with Ok k' => N.eqb k' k | _ => false end.
-
-Definition opt_str_is (o : option str) (s : str) : bool :=
-  match o with Some s' => str_eqb s' s | None => false end.
-
-Definition key_entry_ok (e : string * N * string) : bool :=
-  res_key_is (parse_key_code (lit (sname_of e))) (code_of e)
-  && res_key_is (parse_key_code (lit (ident_of e))) (code_of e)
-  && opt_str_is (serde_name (code_of e)) (lit (sname_of e))
-  && negb (starts_with_at (lit (ident_of e)))
-  && negb (is_digit_string (lit (ident_of e))).
-
-Lemma key_table_ok : forallb key_entry_ok key_table = true.
-Proof. vm_compute. reflexivity. Qed.
-
-Fixpoint nodup_str (l : list str) : bool :=
-  match l with
-  | [] => true
-  | x :: t => negb (existsb (str_eqb x) t) && nodup_str t
-  end.
-
-Lemma nodup_str_NoDup : forall l, nodup_str l = true -> NoDup l.
-Proof.
-  induction l as [|x l IH]; cbn; intro H; [constructor|].
-  apply andb_true_iff in H. destruct H as [H1 H2]. constructor; [|apply IH; exact H2].
-  intro Hin. apply negb_true_iff in H1.
-  assert (existsb (str_eqb x) l = true) as E.
-  { apply existsb_exists. exists x. split; [exact Hin|apply str_eqb_refl]. }
-  rewrite E in H1. discriminate.
-Qed.
-
-Lemma key_idents_nodup : nodup_str (map (fun e => lit (ident_of e)) key_table) = true.
-Proof. vm_compute. reflexivity. Qed.
-
-Lemma key_snames_nodup : nodup_str (map (fun e => lit (sname_of e)) key_table) = true.
-Proof. vm_compute. reflexivity. Qed.
-
-Lemma key_codes_nodup : nodupb (map code_of key_table) = true.
-Proof. vm_compute. reflexivity. Qed.
-
-Lemma res_key_is_eq : forall r k, res_key_is r k = true -> r = Ok k.
-Proof. intros [k'| |s] k H; cbn in H; try discriminate. apply N.eqb_eq in H. subst. reflexivity. Qed.
-
-Lemma opt_str_is_eq : forall o s, opt_str_is o s = true -> o = Some s.
-Proof. intros [s'|] s H; cbn in H; try discriminate. apply str_eqb_eq in H. subst. reflexivity. Qed.
-
-Lemma key_names_roundtrip :
-  forall e, In e key_table ->
-    parse_key_code (lit (sname_of e)) = Ok (code_of e)
-    /\ parse_key_code (lit (ident_of e)) = Ok (code_of e)
-    /\ serde_name (code_of e) = Some (lit (sname_of e))
-    /\ starts_with_at (lit (ident_of e)) = false
-    /\ is_digit_string (lit (ident_of e)) = false.
-Proof.
-  intros e Hin. pose proof key_table_ok as H. rewrite forallb_forall in H. specialize (H e Hin).
-  unfold key_entry_ok in H. repeat (apply andb_true_iff in H; destruct H as [H ?]).
-  repeat split.
-  - apply res_key_is_eq; assumption.
-  - apply res_key_is_eq; assumption.
-  - apply opt_str_is_eq; assumption.
-  - apply negb_true_iff; assumption.
-  - apply negb_true_iff; assumption.
-Qed.
-
-(* a key known to the table is written by serde as a name that parses back *)
-Lemma serde_name_in_table : forall tbl k s, serde_name_in tbl k = Some s ->
-  exists e, In e tbl /\ code_of e = k /\ lit (sname_of e) = s.
-Proof.
-  induction tbl as [|[[i c] sn] tbl IH]; cbn; intros k s H; [discriminate|].
-  destruct (N.eqb c k) eqn:E.
-  - inversion H; subst. apply N.eqb_eq in E. exists (i, c, sn). repeat split; auto.
-  - destruct (IH k s H) as [e [Hin [Hc Hs]]]. exists e. repeat split; auto.
-Qed.
-
-Lemma serde_name_parses : forall k s, serde_name k = Some s -> parse_key_code s = Ok k /\ starts_with_at s = false.
-Proof.
-  intros k s H. unfold serde_name in H. destruct (serde_name_in_table _ _ _ H) as [e [Hin [Hc Hs]]].
-  destruct (key_names_roundtrip e Hin) as [H1 _]. subst. split; [exact H1|].
-  unfold parse_key_code in H1. destruct (starts_with_at (lit (sname_of e))); [discriminate|reflexivity].
-Qed.
 
 (* ---------- the character table and the rows (C13) ---------- *)
 
@@ -246,10 +124,3 @@ Proof.
     rewrite E1, E2. reflexivity.
 Qed.
 
-(* every key the tables can put into a layout is a key code of the tool *)
-Lemma table_keys_known :
-  forallb (fun e => known_key (snd e)) char_table = true
-  /\ forallb known_key spec_row_grave = true /\ forallb known_key spec_row_q = true
-  /\ forallb known_key spec_row_a = true /\ forallb known_key spec_row_z = true
-  /\ known_key LEFTSHIFT = true /\ known_key RIGHTSHIFT = true.
-Proof. vm_compute. repeat split; reflexivity. Qed.
